@@ -46,6 +46,18 @@ bool ops_bias(Ctx &c, Toks const &t)
     c.out("err", itok(c.proxy->all_errors.find("still outside boundaries") != std::string::npos ? 1 : 0));
     return true;
   }
+  if (t[0] == "b.force") {      // b.force <bias>: the force of this bias on each of its variables (scalar components)
+    colvarbias *b = cvm::bias_by_name(t[1]);
+    if (!b) { c.out("bf", "snone"); return true; }
+    std::vector<std::string> o;
+    for (size_t i = 0; i < b->colvar_forces.size(); i++) {
+      colvarvalue const &f = b->colvar_forces[i];
+      if (f.type() == colvarvalue::type_scalar) o.push_back(ftok(f.real_value));
+      else for (size_t k = 0; k < f.size(); k++) o.push_back(ftok(f[k]));
+    }
+    c.out("bf", join(o));
+    return true;
+  }
   if (t[0] == "mt.dump") {
     colvarbias_meta *m = dynamic_cast<colvarbias_meta *>(cvm::bias_by_name(t[1]));
     if (!m) { c.out("nhills", "snone"); return true; }
